@@ -62,8 +62,27 @@ let apply_mut ps m =
       | QEdge (p, c) -> QEdge (List.mapi (fun x b -> if x = j then not b else b) p, c) | e -> e)
   | ["copy"; i; j] -> if int_of_string i >= len then ps else
       let (_, ni) = nth (int_of_string i) in upd (int_of_string j) (fun _ -> ni)
+  | ["setedge"; i; bits; hex] -> upd (int_of_string i) (fun _ -> QEdge (parse_bits bits, CH (HC (z_of_hex hex))))
   | _ -> failwith ("mutation " ^ m)
 let apply_muts ps muts = List.fold_left apply_mut ps muts
+
+(* the same on the legacy (untagged) set *)
+let apply_mut1 ps m =
+  let len = List.length ps in
+  let upd i f = List.mapi (fun j (k, n) -> if j = i then (k, f n) else (k, n)) ps in
+  match String.split_on_char ':' m with
+  | ["drop"; i] -> let i = int_of_string i in List.filteri (fun j _ -> j <> i) ps
+  | ["swap"; i] -> upd (int_of_string i) (fun n -> match n with PBin (l, r) -> PBin (r, l) | e -> e)
+  | ["retag"; _; _] -> ps
+  | ["child"; i; side; hex] -> let v = HC (z_of_hex hex) in upd (int_of_string i) (fun n -> match n, side with
+      | PBin (l, r), "l" -> PBin (v, r) | PBin (l, r), "r" -> PBin (l, v)
+      | PEdge (p, c), _ -> PEdge (p, v) | e, _ -> e)
+  | ["pathflip"; i; j] -> let j = int_of_string j in upd (int_of_string i) (fun n -> match n with
+      | PEdge (p, c) -> PEdge (List.mapi (fun x b -> if x = j then not b else b) p, c) | e -> e)
+  | ["copy"; i; j] -> if int_of_string i >= len then ps else
+      let (_, ni) = List.nth ps (int_of_string i) in upd (int_of_string j) (fun _ -> ni)
+  | ["setedge"; i; bits; hex] -> upd (int_of_string i) (fun _ -> PEdge (parse_bits bits, HC (z_of_hex hex)))
+  | _ -> failwith ("mutation " ^ m)
 
 let parse_child s = (* tag + hex *)
   let v = z_of_hex (String.sub s 1 (String.length s - 1)) in
@@ -97,7 +116,7 @@ let () =
             (set_of1 heqb hfun hb ha (h_prove1 pos t k));
           print_endline ("v2\t" ^ show_res show_term (h_verify2 pos t k));
           print_endline ("v1\t" ^ show_res show_term (h_verify1 pos t k))) keys
-    | "range2" :: h :: rest ->
+    | ("range2" | "range1" as cmd) :: h :: rest ->
         (* range2 <height> ops | first | k:v ... | nil / left right | mutations *)
         let hn = nat_of_int (int_of_string h) in
         let rec parts acc cur = function
@@ -109,11 +128,19 @@ let () =
              let t = h_run hn (List.map kv ops) in
              let bits s = bits_of_Z hn (z_of_hex s) in
              let kvs = List.map (fun s -> let (k, v) = kv s in (bits_of_Z hn k, HC v)) kvs in
-             let proof = match proof with
-               | ["nil"] -> None
-               | [l; r] -> Some (apply_muts (h_range_proof2 t (bits l) (bits r)) muts)
-               | _ -> failwith "range2 proof" in
-             print_endline (show_rres (h_range2 t (bits first) kvs proof))
+             if cmd = "range2" then begin
+               let proof = match proof with
+                 | ["nil"] -> None
+                 | [l; r] -> Some (apply_muts (h_range_proof2 t (bits l) (bits r)) muts)
+                 | _ -> failwith "range2 proof" in
+               print_endline (show_rres (h_range2 t (bits first) kvs proof))
+             end else begin
+               let proof = match proof with
+                 | ["nil"] -> None
+                 | [l; r] -> Some (List.fold_left apply_mut1 (h_range_proof1 t (bits l) (bits r)) muts)
+                 | _ -> failwith "range1 proof" in
+               print_endline (show_rres (h_range1 hn t (bits first) kvs proof))
+             end
          | _ -> failwith "range2 parts")
     | "verify" :: kind :: root :: keybits :: entries ->
         let root = z_of_hex root and k = parse_bits keybits in
